@@ -50,7 +50,7 @@ Print Assumptions C07_broadcast_delivery.
 Theorem C07_unicast_delivery : forall limit mk ns c m d a l,
   reachable limit mk -> m_dest m = Some d -> bytes_eqb d S_org_freedesktop_DBus = false -> owner_of ns d = Some a ->
   dispatch ns mk c m = Some (RDelivered l) ->
-  NoDup l /\ In a l /\
+  valid_type (m_type m) = true /\ NoDup l /\ In a l /\
   forall x, x <> a -> (In x l <-> exists r, In r mk /\ r_owner r = x /\ spec_matches ns (abs_rule r) (Some c) (Some a) m = true).
 Proof. exact unicast_delivery. Qed.
 Print Assumptions C07_unicast_delivery.
@@ -167,29 +167,37 @@ Proof. split; vm_compute; [discriminate | reflexivity]. Qed.
 Print Assumptions C07_parse_refuted_token_cap.
 
 Theorem C07_parse_refuted_backslash :
-  exists r sr, parse_rule 1 T_specex = POk r /\ spec_parse 1 T_specex = SPOk sr /\ srule_eqb (abs_rule r) sr = false /\
-               r_args r = [Some (ArgString, [39]); Some (ArgString, [92;44;97;114;103;50;61;44]); None; Some (ArgString, [92;92])] /\
-               sr_cons sr = [CArg 0 ArgString [39]; CArg 1 ArgString [92]; CArg 2 ArgString [44]; CArg 3 ArgString [92;92]].
-Proof. vm_compute. eexists. eexists. repeat split. Qed.
+  match parse_rule 1 T_specex, spec_parse 1 T_specex with
+  | POk r, SPOk sr =>
+      srule_eqb (abs_rule r) sr = false /\
+      r_args r = [Some (ArgString, [39]); Some (ArgString, [92;44;97;114;103;50;61;44]); None; Some (ArgString, [92;92])] /\
+      sr_cons sr = [CArg 0 ArgString [39]; CArg 1 ArgString [92]; CArg 2 ArgString [44]; CArg 3 ArgString [92;92]]
+  | _, _ => False
+  end.
+Proof. vm_compute. repeat split. Qed.
 Print Assumptions C07_parse_refuted_backslash.
 
 Theorem C07_parse_refuted_arg_key :
-  exists r, parse_rule 1 T_arg010 = POk r /\ nth_error (r_args r) 8 = Some (Some (ArgString, [120])) /\ spec_parse 1 T_arg010 = SPInvalid.
-Proof. vm_compute. eexists. repeat split. Qed.
+  match parse_rule 1 T_arg010 with
+  | POk r => nth_error (r_args r) 8 = Some (Some (ArgString, [120])) /\ spec_parse 1 T_arg010 = SPInvalid
+  | _ => False
+  end.
+Proof. vm_compute. repeat split. Qed.
 Print Assumptions C07_parse_refuted_arg_key.
 
 (* ===== non-vacuity =================================================================================================== *)
-Example ex_parse_ok : exists r, parse_rule 1 T_good = POk r /\ rule_ok r /\ no_empty_argpath r.
+Example ex_parse_ok : match parse_rule 1 T_good with POk r => rule_ok r /\ no_empty_argpath r | _ => False end.
 Proof.
-  vm_compute parse_rule. eexists. split; [reflexivity|]. split; [split; exact I || reflexivity|].
-  intros v [E|[E|[]]]; inversion E. discriminate.
+  destruct (parse_rule 1 T_good) as [| |r] eqn:E; try (vm_compute in E; discriminate).
+  split; [exact (proj1 (parse_rule_ok _ _ _ E))|].
+  vm_compute in E. inversion E; subst r. intros v H. simpl in H. destruct H as [H|[]]. inversion H. discriminate.
 Qed.
 Example ex_spec_agrees : match parse_rule 1 T_good, spec_parse 1 T_good with POk r, SPOk sr => srule_eqb (abs_rule r) sr = true | _, _ => False end.
 Proof. vm_compute. reflexivity. Qed.
-Example ex_match_yes : exists r, parse_rule 1 T_good = POk r /\ rule_matches [] r None None (M_sig [AStr [47;97;47;98]]) false = Some true.
-Proof. vm_compute. eexists. split; reflexivity. Qed.
-Example ex_match_no : exists r, parse_rule 1 T_good = POk r /\ rule_matches [] r None None (M_sig [AStr [120]]) false = Some false.
-Proof. vm_compute. eexists. split; reflexivity. Qed.
+Example ex_match_yes : match parse_rule 1 T_good with POk r => rule_matches [] r None None (M_sig [AStr [47;97;47;98]]) false = Some true | _ => False end.
+Proof. vm_compute. reflexivity. Qed.
+Example ex_match_no : match parse_rule 1 T_good with POk r => rule_matches [] r None None (M_sig [AStr [120]]) false = Some false | _ => False end.
+Proof. vm_compute. reflexivity. Qed.
 Example ex_reachable : exists m, reachable 512 m /\ m <> [] /\
   dispatch [] m 9 (M_sig [AStr [47;97;47;98]]) = Some (RDelivered [1]).
 Proof.
